@@ -2,24 +2,27 @@
 import re
 
 from .lib import callers, closure_of_operand, result_split
+from .lib_c17 import Env, future_term, leaves, outcomes, show
 from .lib_c16 import (SERVE, SPAWN, accept_arms, after_await, await_payloads, awaits, coroutine_of_operand, exits_only_on_close_signal, field_places, give_up_sites, loop_exits, return_defs,
                       server_task, slice_has_call_at)
 
 LEVEL = "other"
-TECHNIQUE = "static analysis: dominance / must-pass on the MIR of HttpServer::close, the server task and the join future in HttpServerStarter::start; sibling agreement of the HTTP and HTTPS accept arms; who-reads and ownership censuses"
+TECHNIQUE = "static analysis: dominance / must-pass on the MIR of HttpServer::close, the server task and the join future in HttpServerStarter::start (async block, or symbolic evaluation of a futures-combinator chain); sibling agreement of the HTTP and HTTPS accept arms; who-reads and ownership censuses"
 LEVEL_TEXT = ("Decides on all paths of the MIR (current tree): close() sends the close signal, then gives up its Arc of the server state, then awaits the join future, and returns only its "
               "result; in the server task every connection future of both accept arms is registered with the one GracefulShutdown watcher before it is spawned, both accept loops are left "
               "only through the select! branch that polled the close receiver, and every path to the task's end awaits graceful.shutdown(); the join future awaits the server task and "
-              "WaitGroup::wait() on the wait group whose worker lives in the server state (with C16.R1: and in every detached handler task) before yielding Ok; join_future is a "
+              "WaitGroup::wait() on the wait group whose worker lives in the server state (with C16.R1: and in every detached handler task) before yielding Ok, and yields the server task's "
+              "own error as Err -- decided for either spelling of that future: an async block / async fn (dominance over its await edges) or a chain of futures-crate combinators "
+              "(map_err / map_ok / and_then / map / inspect / boxed.., evaluated symbolically to the set of ways the chain can resolve; any other combinator fails closed); join_future is a "
               "futures::Shared that is only cloned, polled or queried; the TcpListener is owned by the HttpAcceptor that is moved into the server task and nothing in the crate can leak it.  "
               "Not decided: that hyper's graceful shutdown lets in-flight responses finish, tokio's task/drop order (third-party, schedules).")
 LEVEL_NOTE = "Trusts rustc MIR, the extractor, hyper_util GracefulShutdown (watch registers, shutdown resolves when all watched connections finished), futures::Shared, waitgroup, tokio task drop order."
 EXPLANATION = ("Rules over the MIR of server::HttpServer::close, HttpServerStarter::start (its spawned server-task coroutine and its join coroutine), new_internal, wait_for_shutdown, "
                "Future for HttpServer and CloseHandle::drop from the current tree: ORDER (send -> drop(app_state) -> join await), PASS + SIBLINGS-AGREE (serve_connection -> watch -> spawn on "
                "both arms; loop exits only under the select! output variant fed by the oneshot receiver; graceful.shutdown() awaited on every path), ORDER in the join future (server task "
-               "-> WaitGroup::wait -> Ok), SAME-SOURCE (one WaitGroup::new feeds the starter and the worker in the server state), SHAPE + WHO-READS (join_future), ownership census "
+               "-> WaitGroup::wait -> Ok; for a combinator chain: lib_c17.outcomes over the term of the chain, closures read from their MIR), SAME-SOURCE (one WaitGroup::new feeds the starter and the worker in the server state), SHAPE + WHO-READS (join_future), ownership census "
                "(HttpAcceptor / TcpListener, leak APIs).")
-TRUSTED = ["rustc nightly MIR", "mirfacts extractor", "rules/engine.py + rules/lib_c16.py", "hyper_util::server::graceful", "futures::future::Shared", "waitgroup crate", "tokio task semantics"]
+TRUSTED = ["rustc nightly MIR", "mirfacts extractor", "rules/engine.py + rules/lib_c16.py + rules/lib_c17.py (documented semantics of futures::TryFutureExt::{map_err, map_ok, and_then} and FutureExt::map)", "hyper_util::server::graceful", "futures::future::Shared", "waitgroup crate", "tokio task semantics"]
 
 WATCH = r"graceful::GracefulShutdown::watch$"
 SHUTDOWN = r"graceful::GracefulShutdown::shutdown$"
@@ -49,7 +52,14 @@ def _start(ctx, R):
     return r
 
 
-def _join_coroutine(ctx, R, st):
+_BOXED = r"FutureExt::boxed$|boxed::Box::<T>::pin$"
+_COMBINATOR_TERMS = ("map_err", "map_ok", "and_then", "map", "try_join")
+
+
+def _join_future(ctx, R, st):
+    """The future that is boxed into HttpServer.join_future, in one of the two enumerated idioms:
+    ("async", (coroutine Fn, its aggregate), slice, site) -- an async block, or the future of a crate-local async fn;
+    ("combinators", (Env, term), slice, site) -- a chain of futures::{TryFutureExt, FutureExt} combinators (lib_c17.future_term)."""
     aggs = list(st.aggregates(r"^server::HttpServer$"))
     if len(aggs) != 1:
         ctx.lost(R, "the HttpServer aggregate in start() (%d found)" % len(aggs))
@@ -60,15 +70,22 @@ def _join_coroutine(ctx, R, st):
         ctx.lost(R, "field join_future of HttpServer")
         return None
     sl = st.slice(op)
-    cos = []
-    for c, cb, ct in sl.calls(r"FutureExt::boxed$|boxed::Box::<T>::pin$"):
+    cands = []
+    for c, cb, ct in sl.calls(_BOXED):
         g, node = coroutine_of_operand(st, ct["args"][0])     # an async block, or the future of a crate-local async fn
         if g is not None and g.raw.get("coroutine"):
-            cos.append((g, node))
-    if len(cos) != 1:
-        ctx.lost(R, "the async block / async fn future that is boxed into join_future (%d found)" % len(cos))
+            cands.append((cb, ct, "async", (g, node)))
+            continue
+        env = Env()
+        term = future_term(env, st, ct["args"][0])
+        if term["k"] in _COMBINATOR_TERMS:
+            cands.append((cb, ct, "combinators", (env, term)))
+    # a future may be boxed more than once on its way (`a.boxed().and_then(..).boxed()`): the outermost boxing is the join future
+    outer = [x for x in cands if not any(y is not x and slice_has_call_at(st.slice(y[1]["args"][0]), x[0]) for y in cands)]
+    if len(outer) != 1:
+        ctx.lost(R, "the async block / async fn future / futures-combinator chain that is boxed into join_future (%d found)" % len(outer))
         return None
-    return cos[0][0], cos[0][1], sl, (st, bb)
+    return outer[0][2], outer[0][3], sl, (st, bb)
 
 
 def _upvar_ops(parent, node, child, place_slice):
@@ -196,27 +213,19 @@ def r2_server_task(ctx):
         ctx.check(R, "%s-exit-reaches-shutdown" % name, ok, "graceful.shutdown() lies after the %s accept loop: %s" % (name, ok), (co, shbb))
 
 
-def r3_join_waits(ctx):
-    R = ctx.rule("C17.R3", "join future: awaits the server task and WaitGroup::wait() on the wait group whose worker is stored in the server state, and yields Ok only after both completed", floor=7)
-    s = _start(ctx, R)
-    if s is None:
-        return
-    st, (spbb, spt), co, node = s
-    j = _join_coroutine(ctx, R, st)
-    if j is None:
-        return
-    jc, jnode, jsl, site = j
-    boxed = jsl.has_call(r"FutureExt::boxed$|boxed::Box::<T>::pin$")
-    ctx.check(R, "join-future-is-boxed-shared", jsl.has_call(r"FutureExt::shared$") and boxed, "join_future = <join future>.boxed() / Box::pin(..) (%s) .shared() (%s)" % (boxed, jsl.has_call(r"FutureExt::shared$")), site)
+def _r3_async_block(ctx, R, st, spbb, what):
+    """The completion future is an async block: Ok sites lie after the Ready edges of both awaits; only the server task's own
+    error leaves early.  Returns (the awaited wait group is the starter's, site fn, site bb) or None."""
+    jc, jnode = what
     jh = [a for a in awaits(jc, fut_type_rx=r"task::JoinHandle")]
     jh = [a for a in jh if any(slice_has_call_at(st.slice(o), spbb) for o in _upvar_ops(st, jnode, jc, jc.slice(a["term"]["args"][0])))]
     if len(jh) != 1 or jh[0]["ready"] is None:
         ctx.lost(R, "the await of the server task's JoinHandle in the join future (%d found)" % len(jh))
-        return
+        return None
     waits = jc.live_calls(r"^waitgroup::WaitGroup::wait$")
     ctx.check(R, "one-waitgroup-wait", len(waits) == 1, "WaitGroup::wait call sites in the join future: %d" % len(waits), jc)
     if len(waits) != 1:
-        return
+        return None
     wbb, wt = waits[0]
     waw = awaits(jc, fut_call_bb=wbb)
     rd = return_defs(jc)
@@ -231,13 +240,71 @@ def r3_join_waits(ctx):
     early = [(b, tag) for b, tag in rd if tag != "Ok"]
     if early and not splits:
         ctx.lost(R, "the place where the server task's JoinHandle result is split into Ok / Err")
-        return
+        return None
     stray = sorted(set(tag for b, tag in early if not any(jc.edge_dominates(sp["switch_bb"], sp["err"], b) and sp["err"] != sp["ok"] for sp in splits)))
     ctx.check(R, "early-exit-only-with-the-task-error", not stray,
               "values the join future can yield: Ok after the waits, or an error on the Err side of the server task's result (%d such site(s)); elsewhere: %s" % (len(early), stray), jc)
-    # the wait group is the starter's; its worker is the one in DropshotState
+    # ... and that error IS reported: no Ok site can be reached with the server task's result being Err
+    reported = bool(splits) and bool(oks) and all(any(sp["err"] != sp["ok"] and jc.edge_dominates(sp["switch_bb"], sp["ok"], b) for sp in splits) for b in oks)
+    ctx.check(R, "task-error-is-reported", reported, "every Ok site of the join future lies on the Ok side of a test of the server task's result (tests found: %d): %s" % (len(splits), reported), jc)
+    # the wait group is the starter's
     wops = _upvar_ops(st, jnode, jc, jc.slice(wt["args"][0]))
     from_starter = len(wops) == 1 and st.slice(wops[0]).reads_field("handler_waitgroup") and st.slice(wops[0]).params() == [1]
+    return from_starter, jc, wbb
+
+
+def _r3_combinator_chain(ctx, R, st, spbb, what, site):
+    """The completion future is a chain of futures-crate combinators (`join_handle.map_err(..).and_then(move |()| wg.wait().map(Ok))`):
+    decided on the set of ways the chain can resolve (lib_c17.outcomes, from the combinators' semantics and the closures' MIR) --
+    every Ok has both the server task and WaitGroup::wait() completed, every other outcome is the server task's own Err, and no
+    Err is turned into an Ok.  Returns like _r3_async_block."""
+    env, term = what
+    outs = outcomes(env, term)
+    tasks = {l["id"]: l for l in leaves(term, "task")}
+    waits = {l["id"]: l for l in leaves(term, "wait")}
+    mine = [i for i, l in tasks.items() if l["fn"] is st and l["bb"] == spbb]
+    if len(tasks) != 1 or len(mine) != 1:
+        ctx.lost(R, "the server task's JoinHandle as the one spawned task the combinator chain %s waits for (%d task leaf/leaves)" % (show(term), len(tasks)))
+        return None
+    T = mine[0]
+    ctx.check(R, "one-waitgroup-wait", len(waits) == 1, "WaitGroup::wait futures in the combinator chain %s: %d" % (show(term), len(waits)), site)
+    if len(waits) != 1:
+        return None
+    W, wleaf = list(waits.items())[0]
+    oks = [o for o in outs if o["tag"] == "Ok"]
+    ok = bool(oks) and all(T in o["done"] for o in oks)
+    ctx.check(R, "ok-only-after-server-task", ok, "ways the chain resolves Ok: %d, all with the server task's JoinHandle resolved first: %s" % (len(oks), ok), site)
+    ok = bool(oks) and all(W in o["done"] for o in oks)
+    ctx.check(R, "ok-only-after-waitgroup", ok, "ways the chain resolves Ok: %d, all with WaitGroup::wait() completed: %s" % (len(oks), ok), (wleaf["fn"], wleaf["bb"]))
+    early = [o for o in outs if o["tag"] != "Ok"]
+    stray = sorted(set("%s from %s" % (o["tag"], o["origin"] if not isinstance(o["origin"], tuple) else "another future") for o in early if not (o["tag"] == "Err" and o["origin"] == T)))
+    ctx.check(R, "early-exit-only-with-the-task-error", not stray,
+              "ways the chain resolves: Ok after both waits, or the server task's own error (%d); elsewhere: %s" % (len(early) - len(stray), stray), site)
+    swallowed = [o for o in oks if o["swallowed"]]
+    reported = not swallowed and any(o["tag"] == "Err" and o["origin"] == T for o in outs)
+    ctx.check(R, "task-error-is-reported", reported, "the server task's Err resolves the chain as Err (%s); ways an Err is turned into Ok: %d" % (reported, len(swallowed)), site)
+    roots = env.root_operands(wleaf["fn"], wleaf["wg"])
+    from_starter = len(roots) == 1 and roots[0][0] is st and st.slice(roots[0][1]).reads_field("handler_waitgroup") and st.slice(roots[0][1]).params() == [1]
+    return from_starter, wleaf["fn"], wleaf["bb"]
+
+
+def r3_join_waits(ctx):
+    R = ctx.rule("C17.R3", "join future: awaits the server task and WaitGroup::wait() on the wait group whose worker is stored in the server state, yields Ok only after both completed, "
+                 "and yields the server task's error as Err; written as an async block / async fn or as a chain of futures-crate combinators", floor=8)
+    s = _start(ctx, R)
+    if s is None:
+        return
+    st, (spbb, spt), co, node = s
+    j = _join_future(ctx, R, st)
+    if j is None:
+        return
+    idiom, what, jsl, site = j
+    boxed = jsl.has_call(_BOXED)
+    ctx.check(R, "join-future-is-boxed-shared", jsl.has_call(r"FutureExt::shared$") and boxed, "join_future = <join future>.boxed() / Box::pin(..) (%s) .shared() (%s)" % (boxed, jsl.has_call(r"FutureExt::shared$")), site)
+    r = _r3_async_block(ctx, R, st, spbb, what) if idiom == "async" else _r3_combinator_chain(ctx, R, st, spbb, what, site)
+    if r is None:
+        return
+    from_starter, jc, wbb = r
     ni = ctx.need_fn(ctx.ds, R, r"^server::HttpServerStarter::<C>::new_internal$")
     sa = [s2 for b, i, s2 in ni.aggregates(r"^server::HttpServerStarter$")]
     da = [s2 for b, i, s2 in ni.aggregates(r"^server::DropshotState$")]
@@ -378,6 +445,8 @@ RULES = [("C17.R6", r6_waiters_and_timers), ("C17.R3b", r3b_worker_lives_with_ha
 _S = "dropshot/src/server.rs"
 _I32 = " " * 32
 _I28 = " " * 28
+_JOIN_BLOCK = ("        let join_handle = async move {\n            // After the server shuts down, we also want to wait for any\n            // detached handler futures to complete.\n"
+               "            () = join_handle\n                .await\n                .map_err(|e| format!(\"server stopped: {e}\"))?;\n            () = handler_waitgroup.wait().await;\n            Ok(())\n        };")
 SELFTEST = [
     {"name": "https-watch-skipped", "kind": "mutant", "why": "HTTPS connections are not registered with the graceful watcher: shutdown neither signals them nor waits for their in-flight responses",
      "edits": [(_S, _I32 + "let fut = graceful.watch(fut.into_owned());", _I32 + "let fut = fut.into_owned();")],
@@ -424,6 +493,25 @@ SELFTEST = [
      "edits": [(_S, "        let join_handle = async move {\n            // After the server shuts down, we also want to wait for any\n            // detached handler futures to complete.\n            () = join_handle\n                .await\n                .map_err(|e| format!(\"server stopped: {e}\"))?;\n            () = handler_waitgroup.wait().await;\n            Ok(())\n        };",
                 "        let join_handle = server_and_handlers_done(join_handle, handler_waitgroup);"),
                (_S, "/// Accepts TCP connections like a `TcpListener`, but ignores transient errors", "async fn server_and_handlers_done(\n    server_task: tokio::task::JoinHandle<()>,\n    handler_waitgroup: WaitGroup,\n) -> Result<(), String> {\n    if let Err(e) = server_task.await {\n        return Err(format!(\"server stopped: {e}\"));\n    }\n    handler_waitgroup.wait().await;\n    Ok(())\n}\n\n/// Accepts TCP connections like a `TcpListener`, but ignores transient errors")]},
+    {"name": "join-future-by-combinators", "kind": "benign", "why": "behaviour-preserving: the completion future written with the futures-crate combinators instead of an async block -- map_err passes Ok through, and_then runs `wg.wait().map(Ok)` only after the server task resolved Ok (second enumerated idiom of R3, decided on the outcomes of the chain)",
+     "edits": [(_S, _JOIN_BLOCK, "        let join_handle = join_handle\n            .map_err(|e| format!(\"server stopped: {e}\"))\n            .and_then(move |()| handler_waitgroup.wait().map(Ok));")]},
+    {"name": "join-future-by-combinators-async-tail", "kind": "benign", "why": "behaviour-preserving: as above, the and_then closure returns an async block that awaits the wait group",
+     "edits": [(_S, _JOIN_BLOCK, "        let server_done = join_handle.map_err(|e| format!(\"server stopped: {e}\"));\n        let join_handle = server_done.and_then(move |()| async move {\n            handler_waitgroup.wait().await;\n            Ok(())\n        });")]},
+    {"name": "combinators-skip-waitgroup", "kind": "mutant", "why": "combinator spelling of the completion future that resolves Ok as soon as the server task ended: detached handlers are not waited for",
+     "edits": [(_S, _JOIN_BLOCK, "        let join_handle = join_handle\n            .map_err(|e| format!(\"server stopped: {e}\"))\n            .and_then(move |()| {\n                drop(handler_waitgroup);\n                futures::future::ready(Ok::<(), String>(()))\n            });")],
+     "expect": ["C17.R3"]},
+    {"name": "combinators-swallow-task-error", "kind": "mutant", "why": "combinator spelling in which a panicked / cancelled server task is reported as a clean shutdown",
+     "edits": [(_S, _JOIN_BLOCK, "        let join_handle = join_handle\n            .map(|_| Ok::<(), String>(()))\n            .and_then(move |()| handler_waitgroup.wait().map(Ok));")],
+     "expect": ["C17.R3"]},
+    {"name": "combinators-wait-on-fresh-waitgroup", "kind": "mutant", "why": "combinator spelling that waits on a new, empty wait group: resolves at once, detached handlers still running",
+     "edits": [(_S, _JOIN_BLOCK, "        let join_handle = join_handle\n            .map_err(|e| format!(\"server stopped: {e}\"))\n            .and_then(move |()| {\n                drop(handler_waitgroup);\n                WaitGroup::new().wait().map(Ok)\n            });")],
+     "expect": ["C17.R3"]},
+    {"name": "combinators-error-recovered-to-ok", "kind": "mutant", "why": "combinator spelling with an or_else that turns every error into Ok before anything was waited for (a combinator outside the enumerated ones: fails closed)",
+     "edits": [(_S, _JOIN_BLOCK, "        let join_handle = join_handle\n            .map_err(|e| format!(\"server stopped: {e}\"))\n            .or_else(|_e: String| futures::future::ready(Ok::<(), String>(())))\n            .and_then(move |()| handler_waitgroup.wait().map(Ok));")],
+     "expect": ["C17.R3"]},
+    {"name": "join-ignores-task-error", "kind": "mutant", "why": "a panicked / cancelled server task is reported as a clean shutdown",
+     "edits": [(_S, "            () = join_handle\n                .await\n                .map_err(|e| format!(\"server stopped: {e}\"))?;", "            let _ = join_handle.await;")],
+     "expect": ["C17.R3"]},
     {"name": "join-early-error-not-from-server-task", "kind": "mutant", "why": "the shared shutdown result can be an error although the server task ended cleanly, and is produced before detached handlers were waited for",
      "edits": [(_S, "            () = handler_waitgroup.wait().await;\n            Ok(())", "            if std::env::var_os(\"DROPSHOT_FAST_SHUTDOWN\").is_some() {\n                return Err(String::from(\"not waiting for handlers\"));\n            }\n            () = handler_waitgroup.wait().await;\n            Ok(())")],
      "expect": ["C17.R3"]},
